@@ -238,7 +238,11 @@ func runSen(c scase, idx int) []byte {
 	return line(M{"tree": compress(full), "o": c.O, "outs": outs, "src": c.Src})
 }
 
-// watchdog: a call that does not return within 15 s or a heap beyond 2 GiB (a reader looping while it appends) means the
+// heapLimit: the driver itself stays below ~3 GiB on the largest thorough batch; a reader that loops while it appends
+// passes any limit within seconds
+const heapLimit = 10 << 30
+
+// watchdog: a call that does not return within 15 s or a heap beyond heapLimit (a reader looping while it appends) means the
 // real code hangs. Normal mode: report the cases in flight on stderr ("HANG i j k") and exit 3; the pipeline re-runs them
 // one by one in -solo mode, where the hanging call is written to the trace as an event with ek = write-hang | parse-hang
 // for TraceSen to judge.
@@ -250,7 +254,7 @@ func watchdog(solo bool, cases []scase) {
 		stMu.Lock()
 		var stuck []*stage
 		for _, st := range stages {
-			if ms.HeapAlloc > 2<<30 || time.Since(st.since) > 15*time.Second {
+			if ms.HeapAlloc > heapLimit || time.Since(st.since) > 15*time.Second {
 				stuck = append(stuck, st)
 			}
 		}
@@ -260,7 +264,7 @@ func watchdog(solo bool, cases []scase) {
 				c := cases[st.idx]
 				_, full := build(c.Tree, false)
 				o := sout{As: []string{st.api}, X: ints(st.text), R: M{"t": "none"}, Ek: st.what + "-hang",
-					E: "the call did not return (15 s) or the heap passed 2 GiB"}
+					E: "the call did not return (15 s) or the heap passed 10 GiB"}
 				os.Stdout.Write(line(M{"tree": compress(full), "o": c.O, "outs": []sout{o}, "src": c.Src}))
 				os.Exit(0)
 			}
